@@ -13,6 +13,14 @@ from .source import AnchorError, FuncInfo
 MUTATORS = {"append", "pop", "add", "remove"}
 
 
+class ConcreteRaise(Exception):
+    """Cross-check mode: an executed callee raised."""
+
+
+class StopConcrete(Exception):
+    """Cross-check mode: enough actions have been produced."""
+
+
 class Verifier(Engine):
 
     # ------------------------------------------------------------------ entry / exit
@@ -224,7 +232,11 @@ class Verifier(Engine):
         if m is None:
             raise Unsupported("statement %s at line %d" % (type(s).__name__, s.lineno))
         st.pending_raises = []
-        out = m(s, st)
+        try:
+            out = m(s, st)
+        except ConcreteRaise as exc:
+            st.pending_raises = None
+            return [(st, (Signal.RAISE, str(exc), s))]
         final = []
         for (y, sig) in out:
             if y.pending_raises:
@@ -291,6 +303,19 @@ class Verifier(Engine):
 
     def st_Assert(self, s, st):
         cond = self.truth(self.ev(s.test, st), st, s)
+        if self.site_override is None and any(e == "AssertionError" for e, _ in self.contract.raises) \
+                and (st.frames[-1].func is self.fi or st.frames[-1].func is None):
+            # the contract declares when the assertion may fail: treat it as a conditional raise
+            outs = self.flush(st)
+            t, f = self.decide(st, cond)
+            if f:
+                r = st.fork() if t else st
+                r.assume(Not(cond))
+                outs.append((r, (Signal.RAISE, "AssertionError", s)))
+            if t:
+                st.assume(cond)
+                outs.append((st, (Signal.NORMAL, None)))
+            return outs
         label = "assert"
         props = None
         if s.msg is not None and isinstance(s.msg, ast.Constant) and isinstance(s.msg.value, str):
@@ -338,6 +363,14 @@ class Verifier(Engine):
         val = self.ev(s.value, st)
         for t in s.targets:
             self.assign_target(t, val, st, s)
+            if isinstance(t, ast.Name) and t.id in self.contract.hints and not self.concrete \
+                    and (st.frames[-1].func is self.fi):
+                for hint in self.contract.hints[t.id]:
+                    if hint[0] == "use":
+                        self.use_lemma(hint[1], hint[2], st)
+                        continue
+                    label, expr = hint
+                    self.oblige(st, self.ev_spec(expr, st), "hint:%s" % label, s, kind="hint", clause=expr)
         return [(st, (Signal.NORMAL, None))]
 
     def st_AnnAssign(self, s, st):
@@ -351,6 +384,19 @@ class Verifier(Engine):
         val = self.ev(s.value, st)
         self.assign_target(s.target, self.arith(s.op, cur, val, st, s), st, s)
         return [(st, (Signal.NORMAL, None))]
+
+    def use_lemma(self, name, arg_exprs, st):
+        """Instantiate a separately proved arithmetic lemma at the current state."""
+        params, hyps, concl, _ = self.reg.arith_lemmas[name]
+        vals = [self.ev(self.reg.parse_expr(a), self.spec_view(st)) for a in arg_exprs]
+        inst = State()
+        inst.frames = [Frame(dict(zip(params, vals)), None, None)]
+        inst.heap = st.heap
+        inst.spec_mode = 1
+        self.uses_lemmas.add(name)
+        hs = hyps if isinstance(hyps, (list, tuple)) else [hyps]
+        inst.pc = list(st.pc)
+        st.assume(self.ev_spec("implies(%s, %s)" % (" and ".join("(%s)" % h for h in hs), concl), inst))
 
     def typed_empty(self, ty):
         comps = ty[1]
@@ -564,6 +610,19 @@ class Verifier(Engine):
     def st_For(self, s, st):
         if s.orelse:
             raise Unsupported("for-else")
+        # for i, x in enumerate(L): desugared to an index loop over range(len(L)) with x = L[i]
+        if isinstance(s.iter, ast.Call) and isinstance(s.iter.func, ast.Name) and s.iter.func.id == "enumerate" \
+                and len(s.iter.args) == 1 and isinstance(s.target, ast.Tuple) and len(s.target.elts) == 2 \
+                and all(isinstance(e, ast.Name) for e in s.target.elts):
+            seq = self.ev(s.iter.args[0], st)
+            if not isinstance(seq, (SymList, EmptyList)):
+                raise Unsupported("enumerate over %s" % type(seq).__name__)
+            iname, xname = s.target.elts[0].id, s.target.elts[1].id
+            idx = "it_" + iname
+            st.assign(idx, 0)
+            hi = seq.length if isinstance(seq, SymList) else 0
+            return self.loop(s, st, test_node=None, body=s.body, fingerprint="for %s in %s" % (
+                ast.unparse(s.target), ast.unparse(s.iter)), for_info=(idx, iname, hi, 1, (xname, seq)))
         it = self.ev(s.iter, st)
         if not isinstance(it, RangeV):
             raise Unsupported("for over %s" % type(it).__name__)
@@ -581,15 +640,18 @@ class Verifier(Engine):
     def loop_test(self, s, st, test_node, for_info):
         if for_info is None:
             return self.truth(self.ev(test_node, st), st, s)
-        idx, tgt, hi, step = for_info
+        idx, tgt, hi, step = for_info[:4]
         cur, _ = st.lookup(idx)
         return self.cmp(ast.Lt() if step == 1 else ast.Gt(), cur, hi)
 
     def loop_enter_body(self, st, for_info):
         if for_info is not None:
-            idx, tgt, hi, step = for_info
+            idx, tgt, hi, step = for_info[:4]
             cur, _ = st.lookup(idx)
             st.assign(tgt, cur)
+            if len(for_info) > 4:
+                xname, seq = for_info[4]
+                st.assign(xname, self.list_get(seq, cur))
             st.assign(idx, self.arith(ast.Add(), cur, step, st, None))
 
     def loop(self, s, st, test_node, body, fingerprint, for_info=None):
@@ -677,6 +739,52 @@ class Verifier(Engine):
             live = nxt
         return outs
 
+    # cross-check mode: callees are executed, not abstracted -------------------------
+    def concrete_call(self, c, bound, st, node):
+        name = c.name.split("#")[0]
+        wrapped = c.name.endswith("#wrapped")
+        if name == "schedule.cls_iter":
+            return 1
+        fi = self.index.get(name)
+        args = dict(bound)
+        if wrapped:      # cache_step: s = min(s, n - 1)
+            args["s"] = min(args["s"], args["n"] - 1)
+        key = None
+        if c.pure and all(isinstance(v, (int, bool)) or v is None or isinstance(v, EnumV)
+                          for k, v in args.items() if k != "self") and "self" not in args:
+            key = (name,) + tuple((k, v.code if isinstance(v, EnumV) else v) for k, v in sorted(args.items()))
+            if key in self.concrete_memo:
+                kind, val = self.concrete_memo[key]
+                if kind == "raise":
+                    self.concrete_raise = (val, node)
+                    raise ConcreteRaise(val)
+                return val
+        names = [a.arg for a in fi.node.args.args] + [a.arg for a in fi.node.args.kwonlyargs]
+        fr = Frame({k: args[k] for k in names if k in args}, None, fi)
+        depth = len(st.frames)
+        saved_contract, saved_fi = self.contract, self.fi
+        cal = self.reg.contracts.get(name) or c
+        self.contract, self.fi = cal, fi
+        st.frames.append(fr)
+        try:
+            outs = self.exec_block(fi.node.body, st)
+        finally:
+            self.contract, self.fi = saved_contract, saved_fi
+        if len(outs) != 1:
+            raise EngineError("concrete call of %s forked into %d paths" % (name, len(outs)))
+        y, sig = outs[0]
+        if y is not st:
+            raise EngineError("concrete call changed the state identity")
+        del st.frames[depth:]
+        if sig[0] == Signal.RAISE:
+            if key is not None:
+                self.concrete_memo[key] = ("raise", sig[1])
+            raise ConcreteRaise(sig[1])
+        val = sig[1] if sig[0] == Signal.RETURN else None
+        if key is not None:
+            self.concrete_memo[key] = ("value", val)
+        return val
+
     # closures --------------------------------------------------------------------
     def ghost_callee(self, node, st):
         """A call from ghost code to another function of the same ghost module."""
@@ -752,6 +860,8 @@ class Verifier(Engine):
         self.cover(st, site)
         if self.concrete:
             self.yield_log.append((val.kind, tuple(val.args)))
+            if self.concrete_failed:
+                raise StopConcrete()
         hooks = self.contract.hooks
         if hooks is None:
             return [(st, (Signal.NORMAL, None))]
@@ -765,4 +875,6 @@ class Verifier(Engine):
             outs = self.inline_named(hooks["module"], fname, self.hook_args(st, val.args), st, node)
         finally:
             self.site_override = None
+        if self.concrete and len(self.yield_log) >= self.concrete_limit:
+            raise StopConcrete()
         return [(y, (Signal.NORMAL, None)) for (y, sig) in outs]
